@@ -78,38 +78,38 @@ static inline unsigned long long round_up_to_power_of_two(unsigned long long i)
 //! does what it says: round down to next power of two
 static inline int round_down_to_power_of_two(int i)
 {
-    return round_up_to_power_of_two(i + 1) >> 1;
+    return i == 0 ? 0 : round_up_to_power_of_two((i >> 1) + 1);
 }
 
 //! does what it says: round down to next power of two
 static inline unsigned int round_down_to_power_of_two(unsigned int i)
 {
-    return round_up_to_power_of_two(i + 1) >> 1;
+    return i == 0 ? 0 : round_up_to_power_of_two((i >> 1) + 1);
 }
 
 //! does what it says: round down to next power of two
 static inline long round_down_to_power_of_two(long i)
 {
-    return round_up_to_power_of_two(i + 1) >> 1;
+    return i == 0 ? 0 : round_up_to_power_of_two((i >> 1) + 1);
 }
 
 //! does what it says: round down to next power of two
 static inline unsigned long round_down_to_power_of_two(unsigned long i)
 {
-    return round_up_to_power_of_two(i + 1) >> 1;
+    return i == 0 ? 0 : round_up_to_power_of_two((i >> 1) + 1);
 }
 
 //! does what it says: round down to next power of two
 static inline long long round_down_to_power_of_two(long long i)
 {
-    return round_up_to_power_of_two(i + 1) >> 1;
+    return i == 0 ? 0 : round_up_to_power_of_two((i >> 1) + 1);
 }
 
 //! does what it says: round down to next power of two
 static inline unsigned long long round_down_to_power_of_two(
     unsigned long long i)
 {
-    return round_up_to_power_of_two(i + 1) >> 1;
+    return i == 0 ? 0 : round_up_to_power_of_two((i >> 1) + 1);
 }
 
 //! \}
